@@ -57,6 +57,9 @@ IMG_RULE = ("cases = generated histories of the history engine (session / overla
             "(every reachable node of every stored page = nodeAt, elision rule) and compares absImage with the committed map (length + Blake3 of every value). "
             "Any `bad …` answer is an oracle failure. distinct & non-trivial = snapshots with a non-empty committed state, identified by (cause, expected-state file).")
 
+# tombstone churn on tiny hash tables under a watchdog (found F9: Nomt::open spinning forever)
+CHURN = {"cmd": "churn", "args": ["--cycles", "150"], "cases": {"quick": 4, "thorough": 4}, "seed": 1, "corpus": True}
+
 PROPS = {
     "C07": {
         "runs": [
@@ -125,7 +128,7 @@ PROPS = {
     },
     "C09": {
         "runs": DB_SCN(["stale-nonblocking-then-rollback", "reopen-resurrects-pruned-delta", "rollback-all-then-reopen", "overwrite-huge-value-with-rollback"]) + [
-            DB("rollback", 200, 2000, nops=18), DB("general", 80, 800, nops=16, big=True)],
+            DB("rollback", 200, 2000, nops=18), DB("general", 80, 800, nops=16, big=True), CHURN],
         "rule": DB_RULE + " C09 focus: max_rollback_log_len in {1,2,3,5}; rollback(n) with n in {0,1,2,len,len+1}; rollbacks after reopen, after stale commits, over overlay commits and large values; the oracle keeps the previous committed maps.",
         "trusted_base": API_TB, "assumptions": API_ASSUME + ["segment roll-over of the rollback log needs the segment-size hook (not yet installed): covered only through the 64 MiB default, i.e. not reached by quick runs"],
     },
@@ -153,13 +156,13 @@ PROPS = {
     },
     "C14": {
         "runs": [dict(CRASH("fault", "kv", 3, 3, steps=3, shards_q=1, nops=10), seed=5), dict(CRASH("fault", "general", 2, 2, steps=2, shards_q=1), seed=2),
-                 CRASH("fault", "general", 6, 60, steps=2, shards_q=6), CRASH("fault", "rollback", 3, 30, steps=2, shards_q=3)],
+                 CRASH("fault", "general", 6, 60, steps=2, shards_q=6), CRASH("fault", "rollback", 3, 30, steps=2, shards_q=3), CHURN],
         "rule": CRASH_RULE + " C14: every event index of the chosen operations completes with EIO, once and persistently (writes fail at completion, fsync / resize / unlink at the call); the child reports the result of the call and is_poisoned, then the directory is reopened. Two fixed-seed corpus runs replay the histories that exposed F2 and F8.",
         "trusted_base": DISK_TB, "assumptions": DISK_ASSUME + ["bucket exhaustion is exercised by the API histories with small tables (not yet at every allocation index)"],
     },
     "C10": {
         "runs": DB_SCN(["reopen-resurrects-pruned-delta", "rollback-all-then-reopen"]) + [DB("reopen", 200, 2000, nops=18), DB("reopen", 6, 60, nops=16, big=True, scale=50, shards_q=6), DB("rollback", 60, 600, nops=16),
-                 CRASH("crash", "reopen", 2, 20, steps=1, shards_q=2)],
+                 CRASH("crash", "reopen", 2, 20, steps=1, shards_q=2), CHURN],
         "rule": DB_RULE + " C10 focus: the handle is dropped and reopened (with an independently drawn runtime configuration: workers, cache sizes, io workers, warm-up, prepopulation, upper levels) at random positions, up to half of all steps; after every reopen root, sync_seqn, sampled values, hash_table_utilization().occupied (must equal the pre-close value) and all later commits / rollbacks are compared with a model that ignores close/open.",
         "trusted_base": API_TB, "assumptions": API_ASSUME + ["open retried for up to 5 s when the old handle's directory lock is still held by a background thread (that delay is C20's subject)"],
     },
